@@ -69,6 +69,7 @@ def oper(draw):
         op['svc'] = 'write_tag'
         op['count'] = len(op['values'])
     op.pop('offset', None)
+    op.pop('raw', None)         # (a byte-level Set Attribute Single payload cannot be spelled through the client API)
     if op['svc'] == 'write_tag' and op['count'] != len(op['values']):
         op['count'] = len(op['values'])
     op['route'] = draw(st.sampled_from([0, 0, 0, 1, 2]))
